@@ -11,6 +11,9 @@ from specs.heap import Heap, key_seq
 MX = "_griffe.mixins:"
 MD = "_griffe.models:"
 
+# these native replays search on their own (guided by the obligation / expected outcome), not from the abstract witness: one run per obligation
+REPLAY_KEYED_BY_EXPECTS = {"replay_tree_ops", "replay_alias_links", "replay_get_parts"}
+
 TRUSTED_BASE = [
     "tree fixtures: distinct fixture objects have distinct identities; aliasing cases (value is the container, value is the old member, "
     "alias is its own target) are constructed explicitly",
